@@ -79,20 +79,17 @@ def _compute_branches(  # pylint:disable=too-many-locals
     mapping = rec.object_species
     syntenies = rec.syntenies if isinstance(rec, SuperReconciliationOutput) else {}
 
-    # Propagate color feature downwards in the tree
-    last_color = None
-    last_color_node = None
-
+    # Propagate color feature downwards in the tree: a node without its own
+    # color takes the color of its parent, which was settled before it
     for root_gene in gene_tree.traverse("preorder"):
-        if hasattr(root_gene, "color"):
-            last_color = root_gene.color
-            last_color_node = root_gene
-        elif last_color_node is not None:
-            if last_color_node in root_gene.iter_ancestors():
-                root_gene.add_feature("color", last_color)
-            else:
-                last_color = None
-                last_color_node = None
+        parent_gene = root_gene.up
+
+        if (
+            not hasattr(root_gene, "color")
+            and parent_gene is not None
+            and hasattr(parent_gene, "color")
+        ):
+            root_gene.add_feature("color", parent_gene.color)
 
     # Find gene tree nodes associated to each species and create branches
     for root_species in species_tree.traverse("postorder"):
